@@ -63,7 +63,7 @@ TrHandle ==
   /\ Ev.ev = "handle"
   /\ LET pat  == FullPat
          mws  == FullMws
-         P    == Parse(pat)
+         P    == PParse(pat)
          I    == rt.cfg.icpt
          known == ReKnown(I, P.atoms) /\ ~OddName(I, P.atoms)
          V    == IF known THEN HandleVerdicts(rt, pat, Ev.methods, ReOK(I, P.atoms)) ELSE {"ok", "err"}
@@ -149,13 +149,13 @@ ServeRoot ==
   ELSE Check("C05", R.kind \in {"404", "405"}, <<"root entry", Ev.method, Ev.path, R.kind>>)
 
 ServeGeneral ==
-  LET inVocab == R.pat \in Live(rt) /\ InVocab(rt.cfg.icpt, rt.tab[R.pat].atoms)
+  LET inVocab == R.pat \in Live(rt) /\ Len(R.pat) <= MaxPat /\ InVocab(rt.cfg.icpt, rt.tab[R.pat].atoms)
       want == ReplyFor(rt, <<R.pat, R.params>>, Ev.method)
   IN
   \* C01: whatever is reported is sound, in ANY history and for ANY path
   /\ Check("C01", IF R.kind = "404" THEN DOMAIN R.params = {} /\ ~R.hasNode
                   ELSE /\ R.kind \in {"route", "opt", "405"} /\ R.hasNode /\ R.pat \in Live(rt)
-                       /\ DOMAIN R.params = CapNames(rt.tab[R.pat].atoms)
+                       /\ (Len(R.pat) <= MaxPat => DOMAIN R.params = CapNames(rt.tab[R.pat].atoms))
                        /\ (inVocab => Fits(rt.cfg.icpt, rt.tab[R.pat].atoms, 1, Ev.path, R.params)),
            <<"unsound", Ev.method, Ev.path, R.kind, R.pat, R.params>>)
   /\ IF ~(R.kind \in {"route", "opt", "405"} /\ R.pat \in Live(rt)) THEN TRUE ELSE
@@ -167,13 +167,13 @@ ServeGeneral ==
        /\ Check("C09", want.kind = R.kind => R.order = want.order, <<"order", Ev.method, R.pat, R.kind, R.order, want.order>>)
   /\ Check("C09", R.kind = "404" => R.order = Reverse(rt.use), <<"order 404", R.order>>)
   \* C02 (add-only) / C03 (witness paths in any history): the outcome is an admissible one
-  /\ IF ~(rt.addOnly \/ WitOK) THEN TRUE ELSE
+  /\ IF HasLong(rt) \/ ~(rt.addOnly \/ WitOK) THEN TRUE ELSE
        LET O == ServeOutcomes(rt, Ev.method, Ev.path)
        IN /\ Check(IF rt.addOnly THEN "C02" ELSE "C03", \E o \in O : Same(o),
                    <<"resolution", Ev.method, Ev.path, "got", R.kind, R.pat, R.params, "admissible", SetSeq({<<o.kind, o.pat, o.params>> : o \in O})>>)
           /\ Check("C03", WitOK => \E o \in O : Same(o), <<"witness", Ev.wit, Ev.path, R.kind, R.pat>>)
   \* C17: after a rejected call (rt = prevRt) everything is still what the unchanged table prescribes
-  /\ Check("C17", (lastEv = "handle" /\ rt = prevRt /\ rt.addOnly) => \E o \in ServeOutcomes(rt, Ev.method, Ev.path) : Same(o),
+  /\ Check("C17", (lastEv = "handle" /\ rt = prevRt /\ rt.addOnly /\ ~HasLong(rt)) => \E o \in ServeOutcomes(rt, Ev.method, Ev.path) : Same(o),
            <<"dispatch differs from the unchanged table after a rejected call", Ev.method, Ev.path, R.kind, R.pat>>)
   /\ Check("C17", (lastEv = "handle" /\ rt = prevRt /\ Ev.hasPrev) =>
                     (R.kind = Ev.prev.kind /\ R.h = Ev.prev.h /\ R.pat = Ev.prev.pat /\ R.params = Ev.prev.params
@@ -209,7 +209,7 @@ TrURL ==
   /\ Ev.ev = "url" /\ UNCHANGED <<rt, prevRt, lastEv>>
   /\ LET pat == FullPat
          R0  == IF Ev.via = "mux" THEN [rt EXCEPT !.cfg.domain = ""] ELSE rt
-         P   == Parse(pat)
+         P   == PParse(pat)
          I0  == IF Ev.strict THEN rt.cfg.icpt ELSE <<>>      \* non-strict building knows no interceptors
          known == ReKnown(I0, P.atoms) /\ ~OddName(I0, P.atoms)
          U   == URLResult(R0, Ev.strict, pat, Ev.params, ReOK(I0, P.atoms))
@@ -223,7 +223,7 @@ TrURL ==
 
 TrSyntax ==
   /\ Ev.ev = "syntax" /\ UNCHANGED <<rt, prevRt, lastEv>>
-  /\ LET P == Parse(Ev.pat)
+  /\ LET P == PParse(Ev.pat)
          known == ReKnown(<<>>, P.atoms) /\ ~OddName(<<>>, P.atoms)
      IN /\ Check("C05", Ev.res = "ok", <<"CheckSyntax panicked", Ev.pat>>)
         /\ Check("C17", Ev.res = "ok" =>
